@@ -112,7 +112,8 @@ Print Assumptions C11_records.
 
 (* And with ENUMS, through the item framework of front/GenInv.v (each kind of definition contributes its tokens, what it adds
    to the File and one step lemma for the top-level loop; front/Items.v has the three instances): a schema is any sequence
-   of struct, message and enum definitions (enums untyped, members with plain decimal values).  For EVERY such schema and
+   of struct, readonly struct, message and enum definitions (enums untyped, members with plain decimal values; the
+   readonly marker lands on the struct it precedes and on no other).  For EVERY such schema and
    EVERY layout ReadFile returns the File the text states, which schema_file_spec writes out: each kind of definition in
    source order, nothing else. *)
 Definition C11_schema_statement : Prop :=
@@ -120,13 +121,38 @@ Definition C11_schema_statement : Prop :=
      Forall sdefn_ok dl -> map snd lay = schema_lexemes dl -> Forall (fun p => hws (fst p)) lay -> sep_ok lay -> hws tail ->
      exists s', read_file (render lay tail) false = POk (schema_file dl) s') /\
   (forall dl,
-     structs (schema_file dl) = flat_map (fun d => match d with SStruct nm fl _ => [struct_of (ibytes nm) (map (fun f => (ibytes (fst f), ibytes (snd f))) fl)] | _ => [] end) dl /\
+     structs (schema_file dl) = flat_map (fun d => match d with SStruct nm fl _ => [struct_of (ibytes nm) (map (fun f => (ibytes (fst f), ibytes (snd f))) fl)] | SReadonly nm fl _ => [struct_of_ro (ibytes nm) (map (fun f => (ibytes (fst f), ibytes (snd f))) fl)] | _ => [] end) dl /\
      messages (schema_file dl) = flat_map (fun d => match d with SMessage nm fl _ => [message_of (ibytes nm) (map bmf fl)] | _ => [] end) dl /\
      enums (schema_file dl) = flat_map (fun d => match d with SEnum nm ml _ => [enum_of (ibytes nm) (map bem ml)] | _ => [] end) dl /\
      unions (schema_file dl) = [] /\ consts (schema_file dl) = [] /\ imports (schema_file dl) = [] /\ gopackage (schema_file dl) = []).
+Lemma Forall_map' (dl : list sdefn) : Forall sdefn_ok dl -> Forall xel_ok (map xel_of dl).
+Proof. induction 1; cbn [map]; constructor; [now apply xel_of_ok|assumption]. Qed.
 Theorem C11_schema : C11_schema_statement.
 Proof.
   split; [|exact schema_file_spec]. intros dl lay tail H1 H2 H3 H4 H5.
   destruct (schema_laws dl lay tail H1 H2 H3 H4 H5) as (y & _ & _ & _ & _ & Hr). exact Hr.
+Qed.
+(* the hypotheses are met (an enum, a readonly struct, a message, an empty struct; blank lines), and the conclusion computed *)
+Example C11_schema_witness :
+  let E := {| ic := 69%N; itl := [] |} in let R := {| ic := 82%N; itl := [111%N] |} in let M := {| ic := 77%N; itl := [] |} in
+  let S := {| ic := 83%N; itl := [] |} in let A := {| ic := 65%N; itl := [] |} in let B := {| ic := 66%N; itl := [] |} in
+  let i32 := {| ic := 105%N; itl := [110; 116; 51; 50]%N |} in let x := {| ic := 120%N; itl := [] |} in
+  let one := {| xc := 49%N; xds := []; xv := 1%N |} in let n200 := {| xc := 50%N; xds := [48; 48]%N; xv := 200%N |} in
+  let dl := [SEnum E [(A, one); (B, n200)] 1; SReadonly R [(i32, x)] 0; SMessage M [(n200, (R, x)); (one, (E, x))] 2; SStruct S [] 0] in
+  let lay := glayout (map xel_of dl) in
+  Forall sdefn_ok dl /\ map snd lay = schema_lexemes dl /\ sep_ok lay /\
+  (exists s', read_file (render lay []) false = POk (schema_file dl) s') /\
+  map s_readonly (structs (schema_file dl)) = [true; false].
+Proof.
+  cbv zeta.
+  assert (Hok : Forall sdefn_ok [SEnum {| ic := 69%N; itl := [] |} [({| ic := 65%N; itl := [] |}, {| xc := 49%N; xds := []; xv := 1%N |}); ({| ic := 66%N; itl := [] |}, {| xc := 50%N; xds := [48; 48]%N; xv := 200%N |})] 1;
+      SReadonly {| ic := 82%N; itl := [111%N] |} [({| ic := 105%N; itl := [110; 116; 51; 50]%N |}, {| ic := 120%N; itl := [] |})] 0;
+      SMessage {| ic := 77%N; itl := [] |} [({| xc := 50%N; xds := [48; 48]%N; xv := 200%N |}, ({| ic := 82%N; itl := [111%N] |}, {| ic := 120%N; itl := [] |}));
+                                            ({| xc := 49%N; xds := []; xv := 1%N |}, ({| ic := 69%N; itl := [] |}, {| ic := 120%N; itl := [] |}))] 2;
+      SStruct {| ic := 83%N; itl := [] |} [] 0]).
+  { repeat constructor; cbn; intuition discriminate. }
+  split; [exact Hok|].
+  assert (Hx : Forall xel_ok (map xel_of _)) by (eapply Forall_map'; exact Hok).
+  split; [exact (glayout_lex _ Hx)|]. split; [exact (glayout_sep _ Hx)|]. split; [eexists; vm_compute; reflexivity|vm_compute; reflexivity].
 Qed.
 Print Assumptions C11_schema.
